@@ -7,28 +7,22 @@ import obligations
 TECH = "bounded symbolic execution of the real C code (goto-cc + cbmc 6.11, SAT/SMT verdict per obligation), witness twins, native replay of counterexamples"
 
 CLAIMS = {
- "C01": ("5 (C01)", "Stage-wise, bounded: the solver checks the stages of the pipeline that fit (initial RLE collect() against a byte-wise reference from arbitrary pre-states; "
-         "the stream frame and CRC fold of compress.c; on the way back the header parser, decoding tables + symbol lookup, and the resumable un-RLE emit()) each against a short reference, "
-         "for all inputs inside the stated bounds. The composition argument is written in DESIGN.md; it is not a whole-pipeline round-trip proof.",
-         "NOT covered: divbwt() (forward BWT), do_mtf(), generate_prefix_code(), transmit() and the MTF/Huffman part of retrieve() and decode() (IBWT): a defect confined to those stages is not detected by this check. "
-         "Scaled format constants where stated per obligation; schedules only through C03/C11."),
- "C02": ("5 (C02)", "Bounded, partial: block capacity (collect() never exceeds max_block_size, INV re-established), header 'BZh'+level, end-of-stream magic and combined CRC = fold of stored block CRCs, "
-         "CRC table = CRC-32/BZIP2; all by solver queries over the real code.",
-         "NOT covered: the bit-level content of a block written by transmit() (tables complete, selectors, padding), primary index, non-randomised flag; libbz2 agreement is not encodable."),
+ "C01": ("5 (C01)", 'Stage-wise, bounded: each stage of the pipeline that fits is decided by solver queries over the real code against a short reference, for all inputs inside the stated bounds: initial RLE collect() (byte-wise reference, arbitrary pre-states, in-line shapes), MTF/zero-run coding do_mtf(), stream frame + CRC fold of compress.c; on the way back the header parser, bitmap/selector/delta stages, decoding tables + symbol lookup, one-symbol step of the MTF-value loop, inverse BWT decode() (against the definition of the transform), and the resumable un-RLE emit() (split-independence and inductive step). The composition argument is written in DESIGN.md; it is not a whole-pipeline round-trip proof.',
+         'NOT covered: divbwt() (forward BWT), generate_prefix_code()/assign_codes() (C20 out of reach), transmit() (bit emission), mtf_one() on a used sliding list, the fast decoding path: a defect confined to those is not detected. Scaled format constants where stated per obligation; schedules only through C03/C11.'),
+ "C02": ("5 (C02)", "Bounded, partial: block capacity (collect() never exceeds max_block_size, INV re-established), at most nblock+1 MTF symbols (sizes the selector arrays), header 'BZh'+level, end-of-stream magic and combined CRC = fold of stored block CRCs restarted per stream (also for an empty second stream), CRC table = CRC-32/BZIP2; all by solver queries over the real code.",
+         'NOT covered: the bit-level content of a block written by transmit() (tables complete, selectors, padding, primary index field, non-randomised flag) and generate_prefix_code(); libbz2 agreement is not encodable.'),
  "C03": ("5 (C03)", "xread() fills whole chunks under every read() fragmentation; xwrite() transfers every byte once under every short-write pattern; in_granul == level*100000; "
          "the real reorder queue hands blocks to the writer in position order with the combined CRC restarted per stream; rely/guarantee steps of the real tasks keep the monitor invariant for 1..3 workers.",
          "Assumes C12 (shared state only touched under the scheduler lock). Codec calls are stubs in the scheduler queries. Non-nested overlaps of running tasks are covered only through the rely/guarantee argument, not explored."),
  "C04": ("5 (C04)", "collect() is proved equal to a byte-wise greedy-packing reference for one call from ANY valid pre-state (buffers of 0..2 symbolic bytes, capacity symbolic), INV is inductive, "
          "and the in-line fast path is checked for every byte-equality pattern of 5-byte buffers; chunk size == block capacity; hence blocks and splits of any length by composition.",
          "Capacity explored 1..9 bytes (symbolic), not 100000..900000; a run reaching 259 inside ONE call is outside; do_collect()/do_collect_seq() glue is covered only by the RG steps with a stub collect()."),
- "C05": ("5 (C05)", "Inductive steps over the real decoder: every 6-bit delta window and table start against the strict bzip2 rule; parse() against the stream grammar from every grammar position "
-         "(magic, level digit, CRC capture, combined CRC, stream CRC for all values, byte alignment, trailing-garbage rule); decoding tables usable iff Kraft-complete and canonical symbol lookup; emit() rejects a missing run length wherever the output is split.",
-         "NOT covered: bitmap/selector stages of retrieve(), the MTF-value loop (run accumulation, block overflow, primary index check), decode(), expand.c's block-level checks (declared size, block CRC compare, EOF padding) - see DESIGN.md. Scaled constants for the table query."),
- "C06": ("5 (C06)", "Same obligations as C05 read in the accepting direction: every strictly valid delta window / header sequence / complete table is accepted and decoded as the reference says; documented rejections asserted.",
-         "Same exclusions as C05; legacy randomised blocks, surplus selectors and the 899999 primary index are not covered."),
- "C07": ("5 (C07)", "The real main()/signals.c under a symbolic OS: a decoder error reported from the main thread or a sub-thread ends in exit status 1 (or the signal), with a diagnostic, with no partial output file, for every system-call failure pattern; "
-         "work()'s header sniffing rejects every non-bzip2 start; parse() returns an error for every malformed header sequence; the main thread is always woken.",
-         "That every malformed-input detection site inside retrieve()/expand.c reaches failf() is only partly covered (see C05). Hangs inside worker threads are outside."),
+ "C05": ("5 (C05)", 'Inductive steps over the real decoder, each against a strict reference and in both directions: symbol map buckets, table/selector counts, every selector, every 6-bit delta window and table start (strict bzip2 rule), decoding tables usable iff Kraft-complete + canonical symbol lookup, one symbol of the MTF-value loop (zero runs, run flush, block overflow, empty block, primary index), inverse BWT, emit() (missing run length, split-independence, resume states); parse() against the stream grammar from every grammar position (magic, level digit, CRC capture, combined CRC, stream CRC for all values, byte alignment, trailing-garbage rule); expand.c do_reorder() (declared size, block CRC for all values, decoder status) and do_parse() end-of-input padding rule.',
+         'Scaled constants in several queries (code length 4..6, start width 2..3, block size 4, 40 selectors, slide 512). NOT covered: mtf_one() on a used sliding list, the fast-path copy of the symbol loop, randomised-block derandomisation beyond byte 617, composition across several symbols in one call.'),
+ "C06": ("5 (C06)", 'Same obligations as C05 read in the accepting direction: every strictly valid bucket / selector / delta window / header sequence / complete table / symbol / block is accepted and decoded as the reference says; the two documented rejections are asserted as rejections.',
+         'Same exclusions as C05; surplus selectors (18001 clamp), the 899999 primary index at production size and third-party encoder output as such are not covered.'),
+ "C07": ("5 (C07)", "The real main()/signals.c under a symbolic OS: a decoder error reported from the main thread or a sub-thread ends in exit status 1 (or the signal), with a diagnostic, with no partial output file, for every system-call failure pattern; work()'s header sniffing rejects every non-bzip2 start; every malformed field covered by C05's steps returns its error code, do_reorder()/do_parse() turn block-level errors into failf(); the overrunning-block step runs with bounds checks on (no crash); the main thread is always woken.",
+         "Hangs inside worker threads and the decompression scheduler's liveness are outside; detection sites not covered by C05 (see there)."),
  "C08": ("5 (C08)", "The functional harnesses re-run with CBMC's standard checks on (array bounds, pointer validity incl. use after free, signed overflow, undefined shifts, division by zero): "
          "delta stage, decoding tables + symbol lookup, parser, collect(), xread/xwrite, format sniffing, do_reorder/do_parse of expand.c, the compression tasks and heap helpers - for all inputs inside each harness's bound.",
          "Only the code those harnesses reach, within their bounds: divbwt.c (sort stacks), the fast decoding path, mtf_one(), decode(), transmit() and generate_prefix_code() are NOT covered. Pointer-overflow is not checked; "
@@ -46,8 +40,8 @@ CLAIMS = {
          "RSS itself is not observable by this technique; per-block allocations of the decompressor (do_emit) are not covered."),
  "C14": ("5 (C14)", "mini_dfa == KMP automaton of the 48-bit pattern for all 48x2 transitions; big_dfa == 8 mini steps for all 49x256; scan() == first complete occurrence (48+32 bits) at/after the skip point, exact end position, on all streams of <=32 live bits + 2 words (3 in the thorough tier).",
          "Blocks longer than the bound repeat the word loop (finite automaton). Skip distances that skip a whole word AND still find a pattern need >= 4 words: thorough tier only. make-scantab.pl itself is not encoded."),
- "C15": ("5 (C15)", "parse() compares stored and computed stream CRC for ALL values at every grammar position and captures exactly the 32 header bits as the block CRC (solver query, not bit-flip sampling); combined CRC fold checked on both the compressor and the parser side; emit()'s CRC is the CRC of the emitted bytes.",
-         "The block-CRC comparison in expand.c do_reorder() is not covered by a query (see DESIGN.md); worker count only through C11/C12."),
+ "C15": ("5 (C15)", "parse() compares stored and computed stream CRC for ALL values at every grammar position and captures exactly the 32 header bits as the block CRC; do_reorder() compares block CRC and stored CRC for ALL values (solver query, not bit-flip sampling); combined CRC fold checked on both the compressor and the parser side; emit()'s CRC is the CRC of the emitted bytes.",
+         'Worker count only through C11/C12 (assumed); that every block reaches do_reorder() is scheduler liveness (not covered).'),
  "C16": ("5 (C16)", "Real main.c + signals.c under a symbolic OS with a failure switch on EVERY system-call execution, SIGINT/SIGTERM/sub-thread failures arriving in halt(), and the data-safety predicate asserted after every mutating call (SIGKILL): input intact or complete closed output at every instant; no partial output after exit 1 / death by signal.",
          "work() is a contract stub (content states, not bytes); kernel semantics of O_EXCL/unlink are the model's; unlink() of the run's own output is assumed not to fail."),
  "C17": ("5 (C17)", "Same model: without -f a pre-existing output is never touched (also when stderr fails), non-regular / multiply-linked operands are skipped with a warning, compressed suffixes are skipped when compressing, output names follow the suffix table, permission bits / times are transferred (umask symbolic), input removed iff not -k/-c/-t.",
